@@ -31,6 +31,8 @@ static void z_build(Z *z, uint32_t size, uint64_t d0, uint64_t d1){
 /* a result owns a valid limb array of its own (not shared with an operand) */
 #define ZOUT(r) (__CPROVER_is_fresh(MP(r)->f2, LIMBBYTES))
 #define ZLIMBS_(p) , __CPROVER_object_whole(MP(p)->f2)
+/* value of *p in the pre-state */
+#define OLDZ(p) v3(OLD(MP(p)->f1), OLD(MP(p)->f2[0]), OLD(MP(p)->f2[1]))
 /* p still owns the same limb array */
 #define ZSAME(p) (MP(p)->f2 == OLD(MP(p)->f2))
 #endif
@@ -113,14 +115,16 @@ void h_z_dtor(void){ INZ(a); _ZN4ikos8z_numberD2Ev(&a); REACH; }
 
 /* ================================================================== conversions */
 /* explicit operator int64_t: all three branches (fits int / fits int64 through mpz_export / CRAB_ERROR).
- * If it returns, the value fitted and the result is exact; it returns whenever the value fits (twin). */
+ * If it returns, the value fitted and the result is exact; it returns whenever the value fits (twin).
+ * The call to fits_int64() is replaced by its contract (proved by check z_fits_int64): its two temporaries with
+ * conditional destruction make the in-line formula ten times larger (measured). */
 #ifdef CHECK_z_to_i64_noexit
 #define NOEXIT_z_to_i64 fits64(ZV(self))
 #else
 #define NOEXIT_z_to_i64 1
 #endif
-//@check id=z_to_i64 fn=_ZNK4ikos8z_numbercvlEv props=C20 allow_error=1 backends=z3,minisat,cvc5 first_timeout=60
-//@check id=z_to_i64_noexit fn=_ZNK4ikos8z_numbercvlEv tag=z_to_i64 harness=h_z_to_i64 props=C20 backends=z3,minisat,cvc5 first_timeout=60
+//@check id=z_to_i64 fn=_ZNK4ikos8z_numbercvlEv props=C20 allow_error=1 backends=minisat,z3,cvc5 first_timeout=60 replace=_ZNK4ikos8z_number10fits_int64Ev
+//@check id=z_to_i64_noexit fn=_ZNK4ikos8z_numbercvlEv tag=z_to_i64 harness=h_z_to_i64 props=C20 backends=minisat,z3,cvc5 first_timeout=60 replace=_ZNK4ikos8z_number10fits_int64Ev
 uint64_t _ZNK4ikos8z_numbercvlEv(Z *self)
 __CPROVER_requires(ZFRESH(z_to_i64, self) && IN1(ZLIM) && (NOEXIT_z_to_i64))
 __CPROVER_assigns()
@@ -199,7 +203,7 @@ ZBIN(z_sub, _ZNK4ikos8z_numbermiES0_, IN2(ZB), ZV(ret) == ZV(self) - ZV(x))
 #define DIVB ZB
 #endif
 //@check id=z_mul fn=_ZNK4ikos8z_numbermlES0_ props=C20 backends=minisat,z3,cvc5 first_timeout=60
-//@check id=z_mul_precise fn=_ZNK4ikos8z_numbermlES0_ tag=z_mul harness=h_z_mul props=C20 defs=GM_PRECISE tier=thorough timeout=600 first_timeout=300 backends=minisat,z3,cvc5 first_timeout=60
+//@check id=z_mul_precise fn=_ZNK4ikos8z_numbermlES0_ tag=z_mul harness=h_z_mul props=C20 defs=GM_PRECISE,GM_FLAT tier=thorough backends=minisat,cvc5 first_timeout=400 timeout=600
 ZBIN(z_mul, _ZNK4ikos8z_numbermlES0_, IN2(MULB), ZV(ret) == GM_mul(ZV(self), ZV(x)))
 //@check id=z_neg fn=_ZNK4ikos8z_numberngEv props=C20 backends=minisat,z3,cvc5 first_timeout=60
 void _ZNK4ikos8z_numberngEv(Z *ret, Z *self)
@@ -217,11 +221,11 @@ void h_z_neg(void){ INZ(a); Z r; _ZNK4ikos8z_numberngEv(&r, &a); REACH; }
 #endif
 //@check id=z_div fn=_ZNK4ikos8z_numberdvES0_ props=C20 allow_error=1 backends=minisat,z3,cvc5 first_timeout=60
 //@check id=z_div_noexit fn=_ZNK4ikos8z_numberdvES0_ tag=z_div harness=h_z_div props=C20 backends=minisat,z3,cvc5 first_timeout=60
-//@check id=z_div_precise fn=_ZNK4ikos8z_numberdvES0_ tag=z_div harness=h_z_div props=C20 allow_error=1 defs=GM_PRECISE tier=thorough timeout=600 first_timeout=300 backends=minisat,z3,cvc5 first_timeout=60
+//@check id=z_div_precise fn=_ZNK4ikos8z_numberdvES0_ tag=z_div harness=h_z_div props=C20 allow_error=1 defs=GM_PRECISE,GM_FLAT tier=thorough backends=minisat,cvc5 first_timeout=400 timeout=600
 ZBIN(z_div, _ZNK4ikos8z_numberdvES0_, IN2(DIVB) && NOEXIT_DIV, ZV(x) != 0 && ZV(ret) == GM_tdiv(ZV(self), ZV(x)))
 //@check id=z_rem fn=_ZNK4ikos8z_numberrmES0_ props=C20 allow_error=1 backends=minisat,z3,cvc5 first_timeout=60
 //@check id=z_rem_noexit fn=_ZNK4ikos8z_numberrmES0_ tag=z_rem harness=h_z_rem props=C20 backends=minisat,z3,cvc5 first_timeout=60
-//@check id=z_rem_precise fn=_ZNK4ikos8z_numberrmES0_ tag=z_rem harness=h_z_rem props=C20 allow_error=1 defs=GM_PRECISE tier=thorough timeout=600 first_timeout=300 backends=minisat,z3,cvc5 first_timeout=60
+//@check id=z_rem_precise fn=_ZNK4ikos8z_numberrmES0_ tag=z_rem harness=h_z_rem props=C20 allow_error=1 defs=GM_PRECISE,GM_FLAT tier=thorough backends=minisat,cvc5 first_timeout=400 timeout=600
 ZBIN(z_rem, _ZNK4ikos8z_numberrmES0_, IN2(DIVB) && NOEXIT_DIV, ZV(x) != 0 && ZV(ret) == GM_trem(ZV(self), ZV(x)))
 
 //@check id=z_add_asg fn=_ZN4ikos8z_numberpLES0_ props=C20 backends=minisat,z3,cvc5 first_timeout=60
@@ -302,11 +306,14 @@ ZBIN(z_shr, _ZNK4ikos8z_numberrsES0_, IN2(ZLIM) && ZV(x) >= 0 && ZV(x) < P2(64),
 /* ================================================================== fill_ones: smallest 2^k - 1 >= this, for this >= 0 (the source asserts
  * this >= 0; the assert is compiled out under NDEBUG, so it is the precondition).  The loop doubles `result` until it
  * reaches x: at most FILLBITS iterations for x < 2^FILLBITS (structural bound, unwinding assertion proved).  The loop
- * multiplies by the z_number 2: GM_PRECISE makes that product bit-precise (a multiplication by a constant). */
+ * multiplies by the z_number 2: GM_PRECISE makes that product bit-precise (a multiplication by a constant).
+ * z_fill_ones (thorough): bounded cross-check by unwinding, x < 2^8.  z_fill_ones_loop (quick): loop contract, x < 2^62.
+ * Both use the GM_FLAT representation: with a malloc/free per temporary (7 per iteration) no back end finishes (measured:
+ * unwind 10 > 10 min). */
 #ifndef FILLBITS
 #define FILLBITS 8
 #endif
-//@check id=z_fill_ones fn=_ZNK4ikos8z_number9fill_onesEv props=C20 defs=GM_FLAT,GM_PRECISE vary=FILLBITS:4,8 unwind=10 backends=minisat,z3 first_timeout=300 timeout=300
+//@check id=z_fill_ones fn=_ZNK4ikos8z_number9fill_onesEv props=C20 tier=thorough defs=GM_FLAT,GM_PRECISE,FILLBITS=8 unwind=10 backends=minisat,z3 first_timeout=600 timeout=600
 void _ZNK4ikos8z_number9fill_onesEv(Z *ret, Z *self)
 __CPROVER_requires(FRESH(z_fill_ones, ret, sizeof(Z)) && ZFRESH(z_fill_ones, self) && IN1(P2(FILLBITS)) && ZV(self) >= 0)
 __CPROVER_assigns(*ret)
@@ -343,6 +350,7 @@ static void q_build(Q *q, uint32_t ns, uint64_t n0, uint64_t n1, uint32_t ds, ui
 #endif
 #define INQ(a) GHOST(uint32_t, a##n_size); GHOST(uint64_t, a##n_d0); GHOST(uint64_t, a##n_d1); GHOST(uint32_t, a##d_size); GHOST(uint64_t, a##d_d0); GHOST(uint64_t, a##d_d1); \
   Q a; q_build(&a, a##n_size, a##n_d0, a##n_d1, a##d_size, a##d_d0, a##d_d1)
+#define Q_INV(q, lim) (Q_OK(q, lim) && Q_CANON(q))     /* class invariant of q_number: canonical form */
 #define Q_IS(q, n, d) (Q_OK(q, ZLIM) && QN(q) == (n) && QD(q) == (d))
 
 //@check id=q_ctor0 fn=_ZN4ikos8q_numberC2Ev props=C20 backends=minisat,z3,cvc5 first_timeout=60
@@ -389,7 +397,7 @@ __CPROVER_ensures(QOUT(x) && Q_IS(x, 0, 1));
 void h_q_move(void){ Q r; INQ(b); _ZN4ikos8q_numberC2EOS0_(&r, &b); REACH; }
 //@check id=q_assign fn=_ZN4ikos8q_numberaSERKS0_ props=C20 backends=minisat,z3,cvc5 first_timeout=60
 Q *_ZN4ikos8q_numberaSERKS0_(Q *self, Q *x)
-__CPROVER_requires(QFRESH(q_assign, self) && QFRESH(q_assign, x) && Q_OK(self, ZLIM) && Q_OK(x, ZLIM))
+__CPROVER_requires(QFRESH(q_assign, self) && QFRESH(q_assign, x) && Q_OK(self, ZLIM) && Q_INV(x, ZLIM))
 __CPROVER_assigns(*self QLIMBS_(self))
 __CPROVER_ensures(RET == self && SAMEARRAYS(self) && Q_IS(self, QN(x), QD(x)));
 void h_q_assign(void){ INQ(a); INQ(b); _ZN4ikos8q_numberaSERKS0_(&a, &b); REACH; }
@@ -401,7 +409,7 @@ __CPROVER_assigns(*self, *x)
 __CPROVER_ensures(RET == self && Q_IS(self, OLDQN(x), OLDQD(x)) && Q_IS(x, OLDQN(self), OLDQD(self)))
 __CPROVER_ensures(QNUM(self)->f2 == OLD(QNUM(x)->f2) && QDEN(self)->f2 == OLD(QDEN(x)->f2) && QNUM(x)->f2 == OLD(QNUM(self)->f2) && QDEN(x)->f2 == OLD(QDEN(self)->f2));
 void h_q_move_assign(void){ INQ(a); INQ(b); _ZN4ikos8q_numberaSEOS0_(&a, &b); REACH; }
-//@check id=q_dtor fn=_ZN4ikos8q_numberD2Ev props=C20 backends=minisat,z3,cvc5 first_timeout=60
+//@check id=q_dtor fn=_ZN4ikos8q_numberD2Ev props=C20 backends=z3,minisat,cvc5 first_timeout=60
 void _ZN4ikos8q_numberD2Ev(Q *self)
 __CPROVER_requires(QFRESH(q_dtor, self) && Q_OK(self, ZLIM))
 __CPROVER_assigns()
@@ -447,7 +455,6 @@ QCMP(q_ge, _ZNK4ikos8q_numbergeES0_, !SLT)
 /* ---- arithmetic.  Class invariant of q_number: canonical form (Q_INV): required of operands, ensured of results.
  * ret = the canonical form of self (op) x: GM_qopn / GM_qopd, see models/gmpmodel.c; on integers (denominators 1) that is
  * the integer operation (second clause).  x is passed by value: the callee may canonicalise that temporary in place. */
-#define Q_INV(q, lim) (Q_OK(q, lim) && Q_CANON(q))
 #define QRES(r, op, an, ad, bn, bd) (Q_OK(r, ZLIM) && Q_CANON(r) && QN(r) == GM_qopn(op, an, ad, bn, bd) && QD(r) == GM_qopd(op, an, ad, bn, bd))
 #define QINT(r, op, an, ad, bn, bd) ((ad) != 1 || (bd) != 1 || (QD(r) == 1 && QN(r) == ((op) == 0 ? (an) + (bn) : (op) == 1 ? (an) - (bn) : GM_mul(an, bn))))
 #define QBIN(tag, fn, op, NOEXIT) \
@@ -469,8 +476,8 @@ QBIN(q_mul, _ZNK4ikos8q_numbermlES0_, 2, 1)
 #else
 #define NOEXIT_QDIV 1
 #endif
-//@check id=q_div fn=_ZNK4ikos8q_numberdvES0_ props=C20 allow_error=1 backends=z3,minisat,cvc5 first_timeout=100
-//@check id=q_div_noexit fn=_ZNK4ikos8q_numberdvES0_ tag=q_div harness=h_q_div props=C20 backends=z3,minisat,cvc5 first_timeout=100
+//@check id=q_div fn=_ZNK4ikos8q_numberdvES0_ props=C20 allow_error=1 defs=GM_FLAT backends=minisat,z3,cvc5 first_timeout=100
+//@check id=q_div_noexit fn=_ZNK4ikos8q_numberdvES0_ tag=q_div harness=h_q_div props=C20 defs=GM_FLAT backends=minisat,z3,cvc5 first_timeout=100
 QBIN(q_div, _ZNK4ikos8q_numberdvES0_, 3, NOEXIT_QDIV)
 //@check id=q_neg fn=_ZNK4ikos8q_numberngEv props=C20 backends=minisat,z3,cvc5 first_timeout=100
 void _ZNK4ikos8q_numberngEv(Q *ret, Q *self)
@@ -490,3 +497,75 @@ void h_##tag(void){ INQ(a); Z r; fn(&r, &a); REACH; }
 QROUND(q_round_upper, _ZNK4ikos8q_number14round_to_upperEv, s_cdiv)
 //@check id=q_round_lower fn=_ZNK4ikos8q_number14round_to_lowerEv props=C20 defs=GM_FLAT backends=minisat,z3,cvc5 first_timeout=200 timeout=300
 QROUND(q_round_lower, _ZNK4ikos8q_number14round_to_lowerEv, s_fdiv)
+
+/* compound assignment: *this (canonicalised first) op= x, in place; returns this */
+#define QASG(tag, fn, op, NOEXIT) \
+Q *fn(Q *self, Q *x) \
+__CPROVER_requires(QFRESH(tag, self) && QFRESH(tag, x) && Q_INV(self, QB) && Q_INV(x, QB) && (NOEXIT)) \
+__CPROVER_assigns(*self, *x QLIMBS_(self) QLIMBS_(x)) \
+__CPROVER_ensures(RET == self && SAMEARRAYS(self) && ((op) != 3 || OLDQN(x) != 0)) \
+__CPROVER_ensures(QRES(self, op, OLDQN(self), OLDQD(self), OLDQN(x), OLDQD(x))) \
+__CPROVER_ensures((op) == 3 || QINT(self, op, OLDQN(self), OLDQD(self), OLDQN(x), OLDQD(x))); \
+void h_##tag(void){ INQ(a); INQ(b); fn(&a, &b); REACH; }
+//@check id=q_add_asg fn=_ZN4ikos8q_numberpLES0_ props=C20 backends=minisat,z3,cvc5 first_timeout=100
+QASG(q_add_asg, _ZN4ikos8q_numberpLES0_, 0, 1)
+//@check id=q_sub_asg fn=_ZN4ikos8q_numbermIES0_ props=C20 backends=minisat,z3,cvc5 first_timeout=100
+QASG(q_sub_asg, _ZN4ikos8q_numbermIES0_, 1, 1)
+//@check id=q_mul_asg fn=_ZN4ikos8q_numbermLES0_ props=C20 backends=minisat,z3,cvc5 first_timeout=100
+QASG(q_mul_asg, _ZN4ikos8q_numbermLES0_, 2, 1)
+//@check id=q_div_asg fn=_ZN4ikos8q_numberdVES0_ props=C20 allow_error=1 defs=GM_FLAT backends=minisat,z3,cvc5 first_timeout=100
+//@check id=q_div_asg_noexit fn=_ZN4ikos8q_numberdVES0_ tag=q_div_asg harness=h_q_div_asg props=C20 defs=GM_FLAT backends=minisat,z3,cvc5 first_timeout=100
+QASG(q_div_asg, _ZN4ikos8q_numberdVES0_, 3, NOEXIT_QDIV)
+
+/* ++q / --q: (n + d)/d and (n - d)/d, in place (gcd(n +- d, d) = gcd(n, d): the result is canonical again; that last
+ * step is arithmetic the uninterpreted coprimality symbol does not know, so it is stated here, not proved) */
+#define QPRE(tag, fn, SGN) \
+Q *fn(Q *self) \
+__CPROVER_requires(QFRESH(tag, self) && Q_INV(self, ZB)) \
+__CPROVER_assigns(*self QLIMBS_(self)) \
+__CPROVER_ensures(RET == self && SAMEARRAYS(self) && Q_IS(self, OLDQN(self) SGN OLDQD(self), OLDQD(self))); \
+void h_##tag(void){ INQ(a); fn(&a); REACH; }
+//@check id=q_preinc fn=_ZN4ikos8q_numberppEv props=C20 backends=minisat,z3,cvc5 first_timeout=100
+QPRE(q_preinc, _ZN4ikos8q_numberppEv, +)
+//@check id=q_predec fn=_ZN4ikos8q_numbermmEv props=C20 backends=minisat,z3,cvc5 first_timeout=100
+QPRE(q_predec, _ZN4ikos8q_numbermmEv, -)
+#define QPOSTOP(tag, fn, SGN) \
+void fn(Q *ret, Q *self, uint32_t dummy) \
+__CPROVER_requires(FRESH(tag, ret, sizeof(Q)) && QFRESH(tag, self) && Q_INV(self, ZB)) \
+__CPROVER_assigns(*ret, *self QLIMBS_(self)) \
+__CPROVER_ensures(QOUT(ret) && Q_IS(ret, OLDQN(self), OLDQD(self))) \
+__CPROVER_ensures(SAMEARRAYS(self) && Q_IS(self, OLDQN(self) SGN OLDQD(self), OLDQD(self))); \
+void h_##tag(void){ INQ(a); Q r; fn(&r, &a, 0); REACH; }
+//@check id=q_postinc fn=_ZN4ikos8q_numberppEi props=C20 backends=minisat,z3,cvc5 first_timeout=100
+QPOSTOP(q_postinc, _ZN4ikos8q_numberppEi, +)
+//@check id=q_postdec fn=_ZN4ikos8q_numbermmEi props=C20 backends=minisat,z3,cvc5 first_timeout=100
+QPOSTOP(q_postdec, _ZN4ikos8q_numbermmEi, -)
+
+/* q << x for integers (denominators 1; a non-integral amount is CRAB_ERROR): this * 2^x, 0 <= x and the result in range */
+//@check id=q_shl fn=_ZNK4ikos8q_numberlsES0_ props=C20 defs=GM_FLAT backends=minisat,z3,cvc5 first_timeout=200 timeout=300
+void _ZNK4ikos8q_numberlsES0_(Q *ret, Q *self, Q *x)
+__CPROVER_requires(FRESH(q_shl, ret, sizeof(Q)) && QFRESH(q_shl, self) && QFRESH(q_shl, x) && Q_INV(self, ZLIM) && Q_INV(x, ZLIM) && QD(self) == 1 && QD(x) == 1)
+__CPROVER_requires(QN(x) >= 0 && QN(x) < ZBITS && QN(self) > -(ZLIM >> (uint64_t)QN(x)) && QN(self) < (ZLIM >> (uint64_t)QN(x)))
+__CPROVER_assigns(*ret)
+__CPROVER_ensures(QOUT(ret) && Q_IS(ret, s_shl(QN(self), (uint64_t)QN(x)), 1));
+void h_q_shl(void){ INQ(a); INQ(b); Q r; _ZNK4ikos8q_numberlsES0_(&r, &a, &b); REACH; }
+
+/* ---- no leak: operands and result are destroyed with the real destructors after the call; every block the call itself
+ * allocated must have been released (cbmc --memory-leak-check).  Not part of the wording of C20 (a resource property). */
+/* memory-leak checks of the q_number operators: a resource defect (the mpq_t temporaries are not cleared), reported in
+ * pending_fixes/bignums-3-mpq-temporary-leak.*; it violates no listed property, so these checks are tagged NONE and do
+ * not run with any property */
+//@check id=q_add_noleak fn=_ZNK4ikos8q_numberplES0_ tag=q_add props=NONE cbmc=--memory-leak-check backends=minisat,z3,cvc5 first_timeout=200 timeout=300
+#define NOLEAK2(tag, fn) void h_##tag(void){ INQ(a); INQ(b); Q r; fn(&r, &a, &b); _ZN4ikos8q_numberD2Ev(&r); _ZN4ikos8q_numberD2Ev(&a); _ZN4ikos8q_numberD2Ev(&b); REACH; }
+NOLEAK2(q_add_noleak, _ZNK4ikos8q_numberplES0_)
+//@check id=q_sub_noleak fn=_ZNK4ikos8q_numbermiES0_ tag=q_sub props=NONE cbmc=--memory-leak-check backends=minisat,z3,cvc5 first_timeout=200 timeout=300
+NOLEAK2(q_sub_noleak, _ZNK4ikos8q_numbermiES0_)
+//@check id=q_mul_noleak fn=_ZNK4ikos8q_numbermlES0_ tag=q_mul props=NONE cbmc=--memory-leak-check backends=minisat,z3,cvc5 first_timeout=200 timeout=300
+NOLEAK2(q_mul_noleak, _ZNK4ikos8q_numbermlES0_)
+//@check id=q_neg_noleak fn=_ZNK4ikos8q_numberngEv tag=q_neg props=NONE cbmc=--memory-leak-check backends=minisat,z3,cvc5 first_timeout=200 timeout=300
+void h_q_neg_noleak(void){ INQ(a); Q r; _ZNK4ikos8q_numberngEv(&r, &a); _ZN4ikos8q_numberD2Ev(&r); _ZN4ikos8q_numberD2Ev(&a); REACH; }
+
+/* fill_ones, unbounded number of iterations: loop contract (loops.json, written over the GM_FLAT representation: one positive
+ * limb stored in the _mp_d field).  Invariant: result = 2^j - 1 >= 1 and (result >> 1) < x; variant: x - result.  At the
+ * exit result >= x, so result is the smallest 2^j - 1 >= x.  Proved for every 0 <= x < 2^62. */
+//@check id=z_fill_ones_loop fn=_ZNK4ikos8z_number9fill_onesEv tag=z_fill_ones harness=h_z_fill_ones props=C20 defs=GM_FLAT,GM_PRECISE,FILLBITS=62 loops=1 fallback_unwind=10 backends=minisat,z3 first_timeout=300 timeout=300
